@@ -44,6 +44,21 @@ Theorem from_import_history_independent : forall p n sub, In (p, n, sub) submodu
 Proof. exact from_import_history_independent_l. Qed.
 Print Assumptions from_import_history_independent.
 
+(* Module-local discipline: every attribute use X.Y of a SUBMODULE Y at import time in a checked module
+   m is covered in m itself -- m imports Y explicitly, or `import X` alone binds Y (measured in the
+   interpreter started with -S), or Y is loaded at that interpreter's start-up.  No module relies on
+   another module (or the host program, site hooks, pytest) having imported Y first. *)
+Theorem submodule_uses_locally_covered : locally_covered_b events chain startup checked = true.
+Proof. exact submodule_uses_locally_covered_l. Qed.
+Print Assumptions submodule_uses_locally_covered.
+
+(* The same discipline for attribute uses X.Y inside function and method bodies (run time, generated
+   table [fn_uses]; imports made inside the module's own functions count, [fn_imports]). *)
+Theorem runtime_submodule_uses_locally_covered :
+  fn_uses_covered_b events chain startup fn_uses fn_imports = true.
+Proof. exact runtime_submodule_uses_locally_covered_l. Qed.
+Print Assumptions runtime_submodule_uses_locally_covered.
+
 (* the generic monotonicity (simulation) lemma the two theorems above rest on, for EVERY graph:
    if S is closed under imports and the state u is the state t plus all of S finished, a
    successful import from t also succeeds from u and keeps the relation *)
